@@ -10,6 +10,22 @@ CHECKS = {
   "runtime monitoring: generated command histories on the real FSM and a real single-node engine, judged online against a reference sorted map",
   "Every response, sampled read, applied/leader index and the final dump of seeded command histories (nasty keys, all flag combinations, random apply batches, 1-2 MiB values) is compared with an executable reference map; held on the histories produced, nothing claimed beyond them.",
   "Trusts the reference model (internal/model) and pebble/dragonboat as libraries; keys non-empty; fields nobody asked for are not judged."),
+ "C02": ("exploration",
+  "runtime monitoring: generated transactions embedded in apply batches of the real FSM, differential write-path vs read-only path, concurrent-reader view monitor, engine run",
+  "Succeeded flag, n-th response and post-state of seeded transactions (range/existence/ordering predicates, overlapping ops, after uncommitted batch content) are compared with a reference model; read-only transactions are run through both Lookup and Update and must agree; concurrent readers must only ever see whole-transaction states.",
+  "Trusts the reference model; crash atomicity is delegated to C04's crash histories (they contain transactions)."),
+ "C03": ("exploration",
+  "runtime monitoring: differential replay of one log on several real replicas (different apply batching, close/reopen, snapshot transfer in all format pairs) + reference model",
+  "Per-entry results, raw content hash, dump and both indices of variant replicas are compared pairwise with a reference replica fed one entry per apply call, and with the model, for seeded logs mixing leader-indexed and plain entries.",
+  "Clean close/reopen only (crashes are C04); snapshot transfer driven through the state machine interface as dragonboat drives it."),
+ "C09": ("exploration",
+  "runtime monitoring: relational oracle (prefix, ascending, limit, truthful more, message size, losslessness) over reads of the real FSM and real gRPC streams; point-in-time view monitor with a concurrent writer",
+  "Every read of a request family (limits m-2..m+2 and unlimited; full/keys_only/count_only; single read and stream) over generated contents incl. multi-MiB tables aligned on the 4 MiB cut is judged against the model's full answer; streams over real gRPC with the client's default message limit.",
+  "Packing of pairs into messages is not judged; transport limit = gRPC default 4 MiB as regatta's clients use."),
+ "C12": ("exploration",
+  "runtime monitoring: round-trip / injectivity / order oracles over an exhaustive small key space plus random and extreme keys; bounds observed through the real FSM",
+  "All 780 keys over {00,01,02,FE,FF}^1..4 and all their pairs are checked exhaustively, plus >=150k random/extreme keys and pairs and sorted triples; wildcard and bookkeeping isolation additionally through range reads/deletes with extreme bounds on the real state machine, followed by reopen.",
+  "Accepted key length 1..1024 bytes; the streaming key.Decoder (unused by production code) is observed but not judged."),
 }
 
 NOT_YET = {}
